@@ -9,6 +9,7 @@ oracle : the property itself, as a closed form written here independently of the
 from __future__ import annotations
 
 import itertools
+import json
 
 import numpy as np
 
@@ -223,6 +224,111 @@ def oracle_wiring(chk, d):
     chk.count(1, key="wiring")
 
 
+def oracle_histories_and_mixtures(chk: core.Check, d):
+    """(a) one field given as a Python int (its largest in-range value), the others as arrays of the narrowest dtype that holds them -
+    as when a scalar is broadcast against columns returned by the decoders; (b) one buffer object decoded, refilled in place with identifiers
+    of another class (TOF scintillator <-> MRPC, other detector fields), decoded again: results follow the content"""
+    maxima = {"mdc": [511, 42, 1], "emc": [2, 43, 119], "muc": [2, 7, 8, 111], "cgem": [2, 1, 1500, 1]}
+    for det, mx in maxima.items():
+        enc, decs = impl_encode(det, d), impl_decoders(det, d)
+        cols = [np.arange(0, m + 1, max(1, (m + 1) // 7)) for m in mx]
+        n = min(len(c) for c in cols)
+        cols = [c[:n] for c in cols]
+        for j, m in enumerate(mx):
+            args = [int(m) if k == j else cols[k].astype(np.min_scalar_type(int(cols[k].max()))) for k in range(len(mx))]
+            try:
+                ids = np.asarray(enc(*args))
+            except Exception as ex:
+                chk.coverage.setdefault("mixed_representation_unsupported", {})[f"{det}-arg{j}"] = f"{type(ex).__name__}: {str(ex)[:80]}"
+                continue
+            chk.count(n, key=f"mixed-{det}-{j}")
+            for k, dec in enumerate(decs):
+                got = np.asarray(dec(ids)).astype(np.int64)
+                want = np.full(n, int(m)) if k == j else cols[k].astype(np.int64)
+                if not np.array_equal(got, want):
+                    i = int(np.nonzero(got != want)[0][0])
+                    chk.failing_input(f"{det} identifier composed from a Python int and narrow arrays", {"detector": det, "python_int_field": j, "python_int_value": int(m), "other_fields": [int(c[i]) for c in cols], "dtypes": [str(a.dtype) if hasattr(a, "dtype") else "int" for a in args]},
+                                      {"decoded_field": k, "value": int(got[i])}, int(want[i]), "composing an identifier from in-range field values and decomposing it returns the same field values (for every integer input type able to hold the values)")
+                    return
+    # (b) buffer histories
+    sc = np.asarray(d.get_tof_digi_id(np.array([0, 1, 2, 1], dtype=np.uint32), np.array([0, 1, 0, 0], dtype=np.uint32), np.array([5, 87, 47, 3], dtype=np.uint32), np.array([0, 1, 1, 0], dtype=np.uint32)), dtype=np.uint32)
+    mr = np.asarray(d.get_tof_digi_id(np.array([3, 4, 3, 4], dtype=np.uint32), np.array([35, 17, 2, 9], dtype=np.uint32), np.array([11, 3, 0, 7], dtype=np.uint32), np.array([0, 1, 1, 0], dtype=np.uint32)), dtype=np.uint32)
+    fns = [d.tof_id_to_part, d.tof_id_to_layer_or_module, d.tof_id_to_phi_or_strip, d.tof_id_to_end]
+    fresh = {"sc": [np.asarray(f(sc.copy())).tolist() for f in fns], "mr": [np.asarray(f(mr.copy())).tolist() for f in fns]}
+    for first, second in (("sc", "mr"), ("mr", "sc")):
+        buf = np.array(sc if first == "sc" else mr, dtype=np.uint32)
+        r1 = [np.asarray(f(buf)).tolist() for f in fns]
+        buf[:] = mr if second == "mr" else sc
+        r2 = [np.asarray(f(buf)).tolist() for f in fns]
+        chk.count(8, key=f"tof-buffer-history-{first}-{second}")
+        if r1 != fresh[first] or r2 != fresh[second]:
+            chk.failing_input("TOF decoders on one buffer object refilled in place", {"first_content": [hex(int(x)) for x in (sc if first == "sc" else mr)], "second_content": [hex(int(x)) for x in (mr if second == "mr" else sc)]},
+                              {"second_call": dict(zip(["part", "layer_or_module", "phi_or_strip", "end"], r2))}, dict(zip(["part", "layer_or_module", "phi_or_strip", "end"], fresh[second])),
+                              "decomposing an identifier returns its field values (whatever was decoded from the same array object before)")
+            return
+    for det in ("mdc", "emc", "muc", "cgem"):
+        enc, decs = impl_encode(det, d), impl_decoders(det, d)
+        mx = maxima[det]
+        a = np.asarray(enc(*[np.array([0, 1, m // 2, m], dtype=np.uint32) for m in mx]), dtype=np.uint32)
+        b = np.asarray(enc(*[np.array([m, m // 3, 1, 0], dtype=np.uint32) for m in mx]), dtype=np.uint32)
+        buf = a.copy()
+        _ = [np.asarray(f(buf)) for f in decs]
+        buf[:] = b
+        r2 = [np.asarray(f(buf)).astype(np.int64).tolist() for f in decs]
+        want = [np.asarray(f(b.copy())).astype(np.int64).tolist() for f in decs]
+        chk.count(4, key=f"{det}-buffer-history")
+        if r2 != want:
+            chk.failing_input(f"{det} decoders on one buffer object refilled in place", {"first_content": [hex(int(x)) for x in a], "second_content": [hex(int(x)) for x in b]}, r2, want,
+                              "decomposing an identifier returns its field values (whatever was decoded from the same array object before)")
+            return
+
+
+DISPATCH_CHILD = r"""
+import sys, json
+import numpy as np
+import pybes3.detectors.digi_id as d
+mode = sys.argv[1]
+lay = np.array([40, 41], dtype=np.uint8); flg = np.array([1, 0], dtype=np.uint8)
+out = {}
+if mode == "narrow-first":
+    d.get_mdc_digi_id(np.array([5, 6], dtype=np.uint8), lay, flg)          # the only loop compiled so far: (uint8, uint8, uint8)
+try:
+    ids = d.get_mdc_digi_id(300, lay, flg)                                   # wire 300 is in range (9 bits) and given as a Python int
+    out["result"] = [int(x) for x in np.asarray(ids)]
+    out["wire"] = [int(x) for x in np.asarray(d.mdc_id_to_wire(ids))]
+except Exception as ex:
+    out["error"] = f"{type(ex).__name__}: {ex}"
+print(json.dumps(out))
+"""
+
+
+def dispatch_history(chk: core.Check):
+    """the same in-range call `get_mdc_digi_id(300, uint8 layers, uint8 flags)` in two fresh processes with an empty private numba cache:
+    (A) after a first call with uint8 arrays only, (B) as the first call.  Both must return identifiers that decode to wire 300."""
+    import shutil
+    import subprocess
+    import tempfile
+    res = {}
+    for mode in ("narrow-first", "cold"):
+        cache = tempfile.mkdtemp(prefix="c05-dispatch-")
+        try:
+            p = subprocess.run([core.PY, "-c", DISPATCH_CHILD, mode], capture_output=True, text=True, timeout=900, env=dict(__import__("os").environ, NUMBA_CACHE_DIR=cache))
+            res[mode] = json.loads(p.stdout.strip().splitlines()[-1]) if p.returncode == 0 and p.stdout.strip() else {"error": "child failed: " + p.stderr[-300:]}
+        finally:
+            shutil.rmtree(cache, ignore_errors=True)
+    chk.count(2, key="dispatch-history")
+    chk.coverage["dispatch_history"] = res
+    for mode, r in res.items():
+        ok = r.get("wire") == [300, 300]
+        if not ok:
+            fk = None
+            if mode == "narrow-first" and "OverflowError" in str(r.get("error", "")) and res.get("cold", {}).get("wire") == [300, 300]:
+                fk = {"key": "python-int-with-narrow-arrays-after-narrow-loop"}
+            chk.failing_input("get_mdc_digi_id(300, uint8 layers, uint8 flags) in a fresh process" + (" whose only earlier call used uint8 arrays" if mode == "narrow-first" else " as its first call"),
+                              {"call": "get_mdc_digi_id(300, np.array([40, 41], dtype=np.uint8), np.array([1, 0], dtype=np.uint8))", "history": mode}, r, {"wire": [300, 300]},
+                              "composing an identifier from in-range field values and decomposing it returns the same field values, for every integer input type able to hold the values", finding_key=fk)
+
+
 def run_oracles(chk: core.Check, thorough: bool):
     d = _digi()
     rng = np.random.default_rng(chk.seed + 5)
@@ -244,6 +350,8 @@ def run_oracles(chk: core.Check, thorough: bool):
         oracle_words(chk, d, low[: 1 << 14], "int32")
     oracle_foreign_tags(chk, d, rng)
     oracle_wiring(chk, d)
+    oracle_histories_and_mixtures(chk, d)
+    dispatch_history(chk)
 
 
 # ------------------------------------------------------------------------------------------------
